@@ -180,7 +180,8 @@ def check_case(ctx, tpl_rsmi, tpl_kind, sub, d, flags, wit, tag, origin):
                 if not t0["std"]:
                     ctx.count("threshold_cases_empty")
                 if t1["std"] != t0["std"]:
-                    finding = classify(ctx, sub, tpl_of(tpl_rsmi), s2, tpl_of(tpl_rsmi), invert, strategy, fl_t)
+                    finding = classify(ctx, sub, tpl_of(tpl_rsmi), s2, tpl_of(tpl_rsmi), invert, strategy, fl_t) \
+                        or classify_aromatic(sub, tpl_of(tpl_rsmi), s2, tpl_of(tpl_rsmi), invert, strategy, fl_t)
                     ctx.violation("depends-on-substrate-writing-under-cap", {**wit, "relation": "threshold", "embed_threshold": thr, "strategy": strategy,
                                                                               "variant_substrate": s2, "n": [len(t0["std"]), len(t1["std"])]},
                                   f"with embed_threshold={thr} ({strategy}) the result set changes when the substrate is rewritten: {len(t0['std'])} vs {len(t1['std'])} reactions",
@@ -198,7 +199,8 @@ def check_case(ctx, tpl_rsmi, tpl_kind, sub, d, flags, wit, tag, origin):
                 continue
             ctx.count("relation/rewrite_" + strategy)
             if c_a["std"] != c_b["std"]:
-                finding = classify(ctx, sub, tpl_of(tpl_rsmi), s2, tpl_of(tpl_rsmi), invert, strategy, flags)
+                finding = classify(ctx, sub, tpl_of(tpl_rsmi), s2, tpl_of(tpl_rsmi), invert, strategy, flags) \
+                    or classify_aromatic(sub, tpl_of(tpl_rsmi), s2, tpl_of(tpl_rsmi), invert, strategy, flags)
                 ctx.violation("depends-on-substrate-writing", {**wit, "relation": "rewrite", "strategy": strategy, "variant_substrate": s2,
                                                                 "n": [len(c_a["std"]), len(c_b["std"])]},
                               f"{strategy}: result set changes when the substrate is rewritten ({len(c_a['std'])} vs {len(c_b['std'])} reactions)", finding=finding)
